@@ -64,6 +64,13 @@ class Ctx:
     def quick(self):
         return self.tier == "quick"
 
+    def n(self, quick_n, thorough_n):
+        """Run count of a stage. VERIF_THOROUGH_SCALE (default 1) scales the thorough counts down for a smoke
+        run of the thorough code paths; it is never set by the registered commands."""
+        if self.quick():
+            return quick_n
+        return max(quick_n, int(thorough_n * float(os.environ.get("VERIF_THOROUGH_SCALE", "1"))))
+
     # ---- TLC -------------------------------------------------------------------------------
     def tlc(self, module, name, expect="ok", workers=None, timeout=None, **cfg):
         """Run TLC on `module` with a generated cfg. expect: 'ok' | 'violation' | 'any'."""
